@@ -467,7 +467,7 @@ VocabFrag == {"div", "p", "ul", "li", "table", "tbody", "tr", "td", "colgroup", 
 VocabSmall == {"div", "p", "ul", "li", "span", "a", "img", "select", "option", "optgroup", "script", "my-el", "pre",
                "table", "tbody", "tr", "td", "template", "noscript", "button"}
 VocabQuick == {"div", "p", "ul", "li", "span", "a", "img", "select", "option", "optgroup", "script", "my-el", "pre",
-               "table", "tbody", "tr", "td", "template", "noscript", "button", "ruby", "rt", "textarea"}
+               "table", "tbody", "template", "noscript", "textarea"}
 VocabTable == {"table", "tbody", "tr", "td", "colgroup", "col", "script", "template"}
 VocabList == {"ul", "li", "dl", "dt", "dd", "p", "div", "script", "span", "a"}
 VocabSelect == {"select", "optgroup", "option", "script", "template", "span", "p", "pre"}
